@@ -305,6 +305,13 @@ def _model_loop(E, dt, steps, msteps, dtid, k, ctx, modtext, modname):
             _fail(E, idx, [type(ex).__name__], False, (ms['first'], ms['last']))
             break
         # ---- no exception
+        if isinstance(res['value_repr'], tuple) and (not want or flags['IGNORE_WANT']) and st['form'] in W.VALUE_FORMS \
+                and len(W.form_lines(st)) > 1 and st.get('ps2'):
+            # nothing asks for the value's repr -- unless the statement runs in REPL mode (a
+            # '...'-continued expression does), where echoing the value calls it: not fixed (F6)
+            E.silent.add('verdict')
+            E.notes.append('raising repr of a value nobody compares, in a statement that may be echoed: model silent')
+            break
         if not want:
             window.append(res['out'])
             window_keep.append(res['out'])
